@@ -41,7 +41,7 @@ type checkRunner struct {
 	mailFromReceived bool
 
 	checkedRcpts         []string
-	checkedRcptsPerCheck map[module.CheckState]map[string]struct{}
+	checkedRcptsPerCheck map[module.CheckState]map[string]module.CheckResult
 	checkedRcptsLock     sync.Mutex
 
 	resolver      dns.Resolver
@@ -59,7 +59,7 @@ type checkRunner struct {
 func newCheckRunner(msgMeta *module.MsgMetadata, log log.Logger, r dns.Resolver) *checkRunner {
 	return &checkRunner{
 		msgMeta:              msgMeta,
-		checkedRcptsPerCheck: map[module.CheckState]map[string]struct{}{},
+		checkedRcptsPerCheck: map[module.CheckState]map[string]module.CheckResult{},
 		log:                  log,
 		resolver:             r,
 		dmarcVerify:          dmarc.NewVerifier(r),
@@ -128,18 +128,10 @@ func (cr *checkRunner) checkStates(ctx context.Context, checks []module.Check) (
 			err := cr.runAndMergeResults(states, func(s module.CheckState) module.CheckResult {
 				// Avoid calling CheckRcpt for the same recipient for the same check
 				// multiple times, even if requested.
-				cr.checkedRcptsLock.Lock()
-				if _, ok := cr.checkedRcptsPerCheck[s][rcpt]; ok {
-					cr.checkedRcptsLock.Unlock()
+				res, repeated := cr.checkRcptOnce(ctx, s, rcpt)
+				if repeated {
 					return module.CheckResult{}
 				}
-				if cr.checkedRcptsPerCheck[s] == nil {
-					cr.checkedRcptsPerCheck[s] = make(map[string]struct{})
-				}
-				cr.checkedRcptsPerCheck[s][rcpt] = struct{}{}
-				cr.checkedRcptsLock.Unlock()
-
-				res := s.CheckRcpt(ctx, rcpt)
 				return res
 			})
 			if err != nil {
@@ -245,6 +237,34 @@ func (cr *checkRunner) checkConnSender(ctx context.Context, checks []module.Chec
 	return err
 }
 
+// checkRcptOnce calls CheckRcpt unless the state object has already seen the
+// recipient. In that case it returns the decision made back then (without
+// header fields and authentication results, these are merged already) and
+// repeated = true.
+func (cr *checkRunner) checkRcptOnce(ctx context.Context, s module.CheckState, rcptTo string) (res module.CheckResult, repeated bool) {
+	cr.checkedRcptsLock.Lock()
+	if prev, ok := cr.checkedRcptsPerCheck[s][rcptTo]; ok {
+		cr.checkedRcptsLock.Unlock()
+		return prev, true
+	}
+	if cr.checkedRcptsPerCheck[s] == nil {
+		cr.checkedRcptsPerCheck[s] = make(map[string]module.CheckResult)
+	}
+	cr.checkedRcptsPerCheck[s][rcptTo] = module.CheckResult{}
+	cr.checkedRcptsLock.Unlock()
+
+	res = s.CheckRcpt(ctx, rcptTo)
+
+	cr.checkedRcptsLock.Lock()
+	cr.checkedRcptsPerCheck[s][rcptTo] = module.CheckResult{
+		Reason:     res.Reason,
+		Reject:     res.Reject,
+		Quarantine: res.Quarantine,
+	}
+	cr.checkedRcptsLock.Unlock()
+	return res, false
+}
+
 func (cr *checkRunner) checkRcpt(ctx context.Context, checks []module.Check, rcptTo string) error {
 	states, err := cr.checkStates(ctx, checks)
 	if err != nil {
@@ -252,18 +272,10 @@ func (cr *checkRunner) checkRcpt(ctx context.Context, checks []module.Check, rcp
 	}
 
 	err = cr.runAndMergeResults(states, func(s module.CheckState) module.CheckResult {
-		cr.checkedRcptsLock.Lock()
-		if _, ok := cr.checkedRcptsPerCheck[s][rcptTo]; ok {
-			cr.checkedRcptsLock.Unlock()
-			return module.CheckResult{}
-		}
-		if cr.checkedRcptsPerCheck[s] == nil {
-			cr.checkedRcptsPerCheck[s] = make(map[string]struct{})
-		}
-		cr.checkedRcptsPerCheck[s][rcptTo] = struct{}{}
-		cr.checkedRcptsLock.Unlock()
-
-		res := s.CheckRcpt(ctx, rcptTo)
+		// If the check was already asked about this recipient (the same
+		// RCPT TO sent again, two addresses rewritten into one), its
+		// decision is repeated.
+		res, _ := cr.checkRcptOnce(ctx, s, rcptTo)
 		return res
 	})
 
